@@ -8,6 +8,7 @@
   and numpy's Mersenne twister enter only through the correspondence check.
 -/
 import SkyllhModel.Model.Rng
+import SkyllhModel.Model.RngDeep
 import SkyllhModel.Proofs.Rng
 import SkyllhModel.Generated.C08
 import Mathlib.Tactic
@@ -1145,3 +1146,531 @@ example : (parTrials (fun s p => s + p) id
       (fun o => (o.seed, o.data, o.fit)) = [(10, 11, 21), (10, 13, 23), (10, 10, 20)] := by decide
 -- non-vacuity of the distinctness hypotheses
 example : (none : Option Nat) ≠ some 0 ∧ (some 1 : Option Nat) ≠ some 0 := by decide
+
+
+/-! # Deepening round: the code around the core
+
+## RandomChoice as an object: validation, constructor, call on the stored cdf -/
+
+section choice_object
+variable {K : Type} [Field K] [LinearOrder K] [IsStrictOrderedRing K]
+
+/-- over an ordered field (no NaN) the pinned and the repaired form of the last test decide alike:
+the repair changes nothing for real numbers -/
+theorem c08_validate_forms_agree (atol : K) (n ndim : Nat) (s : K) (ps : List K) :
+    validateProbs true atol n ndim s ps = validateProbs false atol n ndim s ps := by
+  unfold validateProbs
+  simp only [if_true, Bool.false_eq_true, if_false]
+  by_cases h : absF (s - 1) ≤ atol
+  · simp [h, not_lt.mpr h]
+  · simp [h, not_le.mp h]
+
+/-- **the constructor establishes the guard** of the choice theorems: whatever passes
+`_assert_probabilities` (either form of its last test; tolerance below 1; `s` the sum) is a 1-d
+vector of the right length with non-negative entries and positive sum. -/
+theorem c08_validate_establishes_guard (b : Bool) (atol : K) (hat : atol < 1) (n ndim : Nat) (ps : List K)
+    (h : validateProbs b atol n ndim ps.sum ps = .ok ()) :
+    ndim = 1 ∧ ps.length = n ∧ (∀ p ∈ ps, 0 ≤ p) ∧ 0 < ps.sum := by
+  have h' : validateProbs false atol n ndim ps.sum ps = .ok () := by
+    cases b
+    · exact h
+    · rw [← c08_validate_forms_agree]; exact h
+  unfold validateProbs at h'
+  simp only [Bool.false_eq_true, if_false] at h'
+  split_ifs at h' with h1 h2 h3 h4
+  refine ⟨not_not.mp h1, not_not.mp h2, ?_, ?_⟩
+  · intro p hp
+    simp only [List.any_eq_true, decide_eq_true_eq, not_exists, not_and, not_lt] at h3
+    exact h3 p hp
+  · have habs : absF (ps.sum - 1) ≤ atol := by simpa using h4
+    unfold absF at habs
+    split_ifs at habs with h5 <;> linarith
+
+end choice_object
+
+section choice_object_any
+variable {F : Type} [LT F] [LE F] [DecidableLT F] [DecidableLE F] [Neg F] [Sub F] [OfNat F 0] [OfNat F 1]
+  [Add F] [Div F]
+
+/-- the call on the stored cdf is the code path of `chooseCoded` (which recomputes the cdf): the
+object computes its cdf once and that is the cdf of the probabilities it was constructed with -/
+theorem c08_construct_call_eq_coded {α : Type} (b right : Bool) (atol s : F) (form : ArgForm) (ndim : Nat)
+    (items : List α) (ps us : List F) (perm : List Nat) (rc : RC α F)
+    (h : construct b atol form ndim s items ps = .ok rc) :
+    rc.items = items ∧ rc.probs = ps ∧ cdf ps = some rc.cdf ∧
+      rc.call right us perm = chooseCoded right items ps us perm := by
+  unfold construct at h
+  cases hv : validateItems form with
+  | error e => rw [hv] at h; simp at h
+  | ok u =>
+    rw [hv] at h
+    simp only at h
+    cases hp : validateProbs b atol items.length ndim s ps with
+    | error e => rw [hp] at h; simp at h
+    | ok u' =>
+      rw [hp] at h
+      simp only at h
+      cases hc : cdf ps with
+      | none => rw [hc] at h; simp at h
+      | some c =>
+        rw [hc] at h
+        simp only [Except.ok.injEq] at h
+        subst h
+        refine ⟨rfl, rfl, rfl, ?_⟩
+        unfold RC.call chooseCoded idxsCoded
+        rw [hc]
+        simp only
+        cases allSome (perm.map (fun i => us[i]?)) with
+        | none => rfl
+        | some sortedUs =>
+          simp only
+          cases allSome (scatter (List.replicate (sortedUs.map (search right c)).length none) perm
+            (sortedUs.map (search right c))) <;> rfl
+
+end choice_object_any
+
+section choice_object_field
+variable {K : Type} [Field K] [LinearOrder K] [IsStrictOrderedRing K]
+
+/-- **a constructed RandomChoice is correct** — no guard left as a hypothesis: if the constructor
+accepted the arguments (tolerance below 1) then for uniform deviates in `[0,1)` (numpy's contract
+for `random()`) the call returns, it returns one item per deviate, and every returned item has
+strictly positive probability. -/
+theorem c08_choice_object_correct {α : Type} (b : Bool) (atol : K) (hat : atol < 1) (form : ArgForm)
+    (ndim : Nat) (items : List α) (ps us : List K) (rc : RC α K)
+    (h : construct b atol form ndim ps.sum items ps = .ok rc) (hu : ∀ u ∈ us, 0 ≤ u ∧ u < 1) :
+    ∃ r, rc.call true us (argsort us) = some r ∧ r.length = us.length ∧
+      ∀ (k : Nat) (u : K), us[k]? = some u → ∃ (i : Nat) (p : K), ps[i]? = some p ∧ 0 < p ∧
+        r[k]? = items[i]? ∧ i < items.length := by
+  obtain ⟨-, -, -, hcall⟩ := c08_construct_call_eq_coded b true atol ps.sum form ndim items ps us (argsort us) rc h
+  have hv : validateProbs b atol items.length ndim ps.sum ps = .ok () := by
+    unfold construct at h
+    cases hv : validateItems form with
+    | error e => rw [hv] at h; simp at h
+    | ok u =>
+      rw [hv] at h
+      simp only at h
+      cases hp : validateProbs b atol items.length ndim ps.sum ps with
+      | error e => rw [hp] at h; simp at h
+      | ok u' => rfl
+  obtain ⟨-, hlen, hp, hS⟩ := c08_validate_establishes_guard b atol hat items.length ndim ps hv
+  rw [hcall]
+  exact c08_choice_coded_correct items ps us hlen.symm hp hS hu
+
+/-- the constructor never fails with the `IndexError` of `self._cdf[-1]`: an empty probability
+array is rejected by the sum test before -/
+theorem c08_construct_never_index_error {α : Type} (b : Bool) (atol : K) (hat : atol < 1) (form : ArgForm)
+    (ndim : Nat) (items : List α) (ps : List K) :
+    construct b atol form ndim ps.sum items ps ≠ .error .indexError := by
+  unfold construct
+  cases hv : validateItems form with
+  | error e =>
+    unfold validateItems at hv
+    cases form with
+    | notArray => simp at hv; subst hv; simp
+    | array k => simp only at hv; split_ifs at hv; simp at hv; subst hv; simp
+  | ok u =>
+    simp only
+    cases hp : validateProbs b atol items.length ndim ps.sum ps with
+    | error e =>
+      unfold validateProbs at hp
+      split_ifs at hp <;> simp at hp <;> subst hp <;> simp
+    | ok u' =>
+      obtain ⟨-, -, -, hS⟩ := c08_validate_establishes_guard b atol hat items.length ndim ps hp
+      have hne : ps ≠ [] := by rintro rfl; simp at hS
+      simp only
+      cases hc : cdf ps with
+      | none =>
+        exfalso
+        unfold cdf at hc
+        rw [C08.cumsum_eq_cumFrom, C08.cumFrom_getLast? 0 ps hne] at hc
+        simp at hc
+      | some c => simp
+
+end choice_object_field
+
+/-! ### NaN: where the pinned validation falls short -/
+
+/-- a toy arithmetic with one NaN (`none`): every operation propagates it, every comparison with it
+is false — the two facts about IEEE NaN the argument needs -/
+structure NInt where
+  v : Option Int
+deriving DecidableEq
+
+namespace NInt
+def nan : NInt := ⟨none⟩
+def of (k : Int) : NInt := ⟨some k⟩
+def lift2 (f : Int → Int → Int) (a b : NInt) : NInt :=
+  match a.v, b.v with
+  | some x, some y => ⟨some (f x y)⟩
+  | _, _ => ⟨none⟩
+instance : Add NInt := ⟨lift2 (· + ·)⟩
+instance : Sub NInt := ⟨lift2 (· - ·)⟩
+instance : Div NInt := ⟨lift2 (· / ·)⟩
+instance : Neg NInt := ⟨fun a => ⟨a.v.map (fun x => -x)⟩⟩
+instance : OfNat NInt 0 := ⟨of 0⟩
+instance : OfNat NInt 1 := ⟨of 1⟩
+instance : Zero NInt := ⟨of 0⟩
+def lt (a b : NInt) : Prop := match a.v, b.v with
+  | some x, some y => x < y
+  | _, _ => False
+def le (a b : NInt) : Prop := match a.v, b.v with
+  | some x, some y => x ≤ y
+  | _, _ => False
+instance : LT NInt := ⟨lt⟩
+instance : LE NInt := ⟨le⟩
+instance : DecidableLT NInt := fun a b => by
+  show Decidable (lt a b); unfold lt; cases a.v <;> cases b.v <;> infer_instance
+instance : DecidableLE NInt := fun a b => by
+  show Decidable (le a b); unfold le; cases a.v <;> cases b.v <;> infer_instance
+end NInt
+
+/-- the statement one wants of the validation: an accepted vector contains no NaN -/
+def c08_validate_rejects_nan_statement (rejectsNaN : Bool) : Prop :=
+  ∀ (atol : NInt) (n : Nat) (ps : List NInt), validateProbs rejectsNaN atol n 1 ps.sum ps = .ok () →
+    ∀ p ∈ ps, p ≠ NInt.nan
+
+/-- it is false for the pinned test `abs(p_sum - 1) > atol`: probabilities `[0, NaN]` are accepted —
+and the choice then returns the item of probability 0 for every deviate -/
+theorem c08_validate_rejects_nan_counterexample : ¬ c08_validate_rejects_nan_statement false := by
+  intro h
+  exact absurd rfl (h (NInt.of 0) 2 [NInt.of 0, NInt.nan] (by decide) NInt.nan (by simp))
+
+theorem c08_nan_choice_returns_zero_probability_item :
+    validateProbs false (NInt.of 0) 2 1 ([NInt.of 0, NInt.nan] : List NInt).sum [NInt.of 0, NInt.nan] = .ok () ∧
+    chooseSpec true [10, 11] [NInt.of 0, NInt.nan] [NInt.of 0] = some [10] ∧
+    validateProbs true (NInt.of 0) 2 1 ([NInt.of 0, NInt.nan] : List NInt).sum [NInt.of 0, NInt.nan] =
+      .error .valueError := by decide
+
+namespace C08
+theorem nint_sum_nan (ps : List NInt) (h : NInt.nan ∈ ps) : ps.sum = NInt.nan := by
+  induction ps with
+  | nil => simp at h
+  | cons p rest ih =>
+    rw [List.sum_cons]
+    rcases List.mem_cons.mp h with rfl | h
+    · show NInt.lift2 (· + ·) NInt.nan rest.sum = NInt.nan
+      simp [NInt.lift2, NInt.nan]
+    · rw [ih h]
+      show NInt.lift2 (· + ·) p NInt.nan = NInt.nan
+      unfold NInt.lift2 NInt.nan
+      cases p.v <;> rfl
+end C08
+
+/-- with the repaired test `not (abs(p_sum - 1) <= atol)` the statement holds: NaN anywhere in the
+vector makes the sum NaN, and NaN fails every `<=` -/
+theorem c08_validate_rejects_nan : c08_validate_rejects_nan_statement true := by
+  intro atol n ps h p hp hnan
+  subst hnan
+  unfold validateProbs at h
+  rw [C08.nint_sum_nan ps hp] at h
+  have hle : ¬ (absF (NInt.nan - 1) ≤ atol) := by
+    intro hcon
+    have h1 : absF (NInt.nan - (1 : NInt)) = NInt.nan := by decide
+    rw [h1] at hcon
+    exact hcon
+  simp only [if_true, hle, decide_false, Bool.not_false, if_true] at h
+  split_ifs at h
+
+/-- the source read at check time uses the repaired form -/
+theorem c08_choice_validation_for_current_source : Gen.C08.probSumTestRejectsNaN = true := by decide
+
+-- non-vacuity: a vector the validation accepts (ℚ, tolerance 1/100), and one it rejects
+example : validateProbs true (1/100 : ℚ) 3 1 ([1/2, 0, 1/2] : List ℚ).sum [1/2, 0, 1/2] = .ok () := by
+  decide +kernel
+example : validateProbs true (1/100 : ℚ) 3 1 ([1/2, 0, 1/4] : List ℚ).sum [1/2, 0, 1/4] = .error .valueError := by
+  decide +kernel
+
+/-! ## Minimizer.minimize: restart loop, error, bounds -/
+
+section minimizer
+variable {V X S : Type}
+
+/-- **the restart loop**: it does between 0 and the allowed number of restarts and stops for one of
+exactly three reasons — the last attempt converged, it is not repeatable, or the allowed number of
+restarts is used up. -/
+theorem c08_restart_loop_spec (impl : MinImpl X S) (mkInit : (Nat → V) → X) (wordsPer : Nat)
+    (view : Nat → V) (fuel reps : Nat) (cur : X × S) :
+    reps ≤ (restartLoop impl mkInit wordsPer view fuel reps cur).2 ∧
+      (restartLoop impl mkInit wordsPer view fuel reps cur).2 ≤ reps + fuel ∧
+      (impl.converged (restartLoop impl mkInit wordsPer view fuel reps cur).1.2 = true ∨
+        impl.repeatable (restartLoop impl mkInit wordsPer view fuel reps cur).1.2 = false ∨
+        (restartLoop impl mkInit wordsPer view fuel reps cur).2 = reps + fuel) := by
+  induction fuel generalizing reps cur with
+  | zero => simp [restartLoop]
+  | succ fuel ih =>
+    unfold restartLoop
+    by_cases hc : (!impl.converged cur.2 && impl.repeatable cur.2) = true
+    · rw [if_pos hc]
+      obtain ⟨a, b, c⟩ := ih (reps + 1) (impl.minimize (reps + 1) (mkInit (fun i => view (wordsPer * reps + i))))
+      refine ⟨by omega, by omega, ?_⟩
+      rcases c with c | c | c
+      · exact Or.inl c
+      · exact Or.inr (Or.inl c)
+      · exact Or.inr (Or.inr (by omega))
+    · rw [if_neg hc]
+      refine ⟨le_refl _, by omega, ?_⟩
+      simp only [Bool.and_eq_true, Bool.not_eq_eq_eq_not, Bool.not_true, not_and, Bool.not_eq_true] at hc
+      cases h1 : impl.converged cur.2 with
+      | true => exact Or.inl rfl
+      | false => exact Or.inr (Or.inl (hc h1))
+
+/-- **`Minimizer.minimize`**: it returns a result exactly when the last attempt converged, raises
+the `ValueError` otherwise, and in both cases has read `wordsPer · reps ≤ wordsPer · max_repetitions`
+words from the service it was given — from that service only (it is handed nothing else). -/
+theorem c08_minimize_spec (impl : MinImpl X S) (mkInit : (Nat → V) → X) (wordsPer maxRep : Nat)
+    (clip : X → X) (x0 : X) (view : Nat → V) :
+    ((∃ r, (minimizeM impl mkInit wordsPer maxRep clip x0 view).1 = .ok r ∧ impl.converged r.status = true ∧
+        r.reps ≤ maxRep ∧ (minimizeM impl mkInit wordsPer maxRep clip x0 view).2 = wordsPer * r.reps) ∨
+      ((minimizeM impl mkInit wordsPer maxRep clip x0 view).1 = .error .notConverged)) ∧
+      (minimizeM impl mkInit wordsPer maxRep clip x0 view).2 ≤ wordsPer * maxRep := by
+  obtain ⟨-, hb, -⟩ := c08_restart_loop_spec impl mkInit wordsPer view maxRep 0 (impl.minimize 0 x0)
+  unfold minimizeM
+  by_cases hc : impl.converged (restartLoop impl mkInit wordsPer view maxRep 0 (impl.minimize 0 x0)).1.2 = true
+  · simp only [hc, if_true]
+    exact ⟨Or.inl ⟨_, rfl, hc, by simpa using hb, rfl⟩, Nat.mul_le_mul_left _ (by simpa using hb)⟩
+  · simp only [hc, Bool.false_eq_true, if_false]
+    exact ⟨Or.inr trivial, Nat.mul_le_mul_left _ (by simpa using hb)⟩
+
+/-- a minimiser that converges at the first attempt draws nothing -/
+theorem c08_minimize_converged_draws_nothing (impl : MinImpl X S) (mkInit : (Nat → V) → X)
+    (wordsPer maxRep : Nat) (clip : X → X) (x0 : X) (view : Nat → V)
+    (h : impl.converged (impl.minimize 0 x0).2 = true) :
+    (minimizeM impl mkInit wordsPer maxRep clip x0 view).2 = 0 := by
+  unfold minimizeM
+  cases maxRep with
+  | zero => simp [restartLoop, h]
+  | succ k => simp [restartLoop, h]
+
+end minimizer
+
+section bounds
+variable {K : Type} [Field K] [LinearOrder K] [IsStrictOrderedRing K]
+
+/-- random restart initials lie within the parameter bounds (for deviates in `[0,1)`) -/
+theorem c08_restart_initials_in_bounds (bounds : List (K × K)) (u : Nat → K)
+    (hb : ∀ b ∈ bounds, b.1 ≤ b.2) (hu : ∀ j, 0 ≤ u j ∧ u j < 1) (j : Nat) (x : K) (b : K × K)
+    (hx : (randInitials bounds u)[j]? = some x) (hbj : bounds[j]? = some b) : b.1 ≤ x ∧ x ≤ b.2 := by
+  unfold randInitials at hx
+  simp only [List.getElem?_map, List.getElem?_zipIdx, hbj, Option.map_some, Nat.zero_add,
+    Option.some.injEq] at hx
+  subst hx
+  have h1 := hb b (List.mem_of_getElem? hbj)
+  obtain ⟨h2, h3⟩ := hu j
+  constructor
+  · nlinarith
+  · nlinarith
+
+/-- the clipping after the minimisation puts every fit value inside its bounds and leaves a value
+that is inside alone -/
+theorem c08_clip_in_bounds (b : K × K) (x : K) (hb : b.1 ≤ b.2) :
+    b.1 ≤ clipOne b x ∧ clipOne b x ≤ b.2 ∧ (b.1 ≤ x → x ≤ b.2 → clipOne b x = x) := by
+  unfold clipOne
+  refine ⟨?_, ?_, ?_⟩
+  · split_ifs <;> simp_all <;> linarith
+  · split_ifs <;> simp_all <;> linarith
+  · intro h1 h2
+    rw [if_neg (not_lt.mpr h2), if_neg (not_lt.mpr h1)]
+
+end bounds
+
+/-! ## trials that may raise: post-state and the data side -/
+
+section trialsE
+variable {V D R R' : Type}
+
+namespace C08
+
+theorem doTrialE_data (gen : Nat → Nat → V) (cfg : TrialCfgE V D R) (w : World) (a : Nat) (ms : Option Nat)
+    (hms : ms ≠ some a) :
+    (doTrialE gen cfg w a ms).2 a = (w a).adv (cfg.dataGen ((w a).view gen)).2 ∧
+      ∀ o, (doTrialE gen cfg w a ms).1 = .ok o → dataOf o = ((w a).seed, (cfg.dataGen ((w a).view gen)).1) := by
+  cases ms with
+  | none =>
+    simp only [doTrialE]
+    refine ⟨set_same _ _ _, ?_⟩
+    intro o ho
+    cases hm : (cfg.minim (cfg.dataGen ((w a).view gen)).1 ((Stream.fresh (w a).seed).view gen)).1 with
+    | error e => rw [hm] at ho; simp [Except.map] at ho
+    | ok r => rw [hm] at ho; simp only [Except.map, Except.ok.injEq] at ho; subst ho; rfl
+  | some m =>
+    have ham : a ≠ m := fun e => hms (by rw [e])
+    simp only [doTrialE]
+    refine ⟨by rw [set_other _ _ _ _ ham, set_same], ?_⟩
+    intro o ho
+    cases hm : (cfg.minim (cfg.dataGen ((w a).view gen)).1
+        (((w.set a ((w a).adv (cfg.dataGen ((w a).view gen)).2)) m).view gen)).1 with
+    | error e => rw [hm] at ho; simp [Except.map] at ho
+    | ok r => rw [hm] at ho; simp only [Except.map, Except.ok.injEq] at ho; subst ho; rfl
+
+end C08
+
+/-- **the data side of trials that may raise**: for a minimiser service that is not the data
+service, the rows completed before a raise carry exactly the first entries of the *pure data
+trace* (a function of the data service, `n` and the data generation only); a raise ends the
+sequence early; and the data service is left after exactly as many pseudo-data generations as
+trials were started — what the raising trial consumed stays consumed.  Which trial raises depends
+on the minimiser; what the completed trials generated does not. -/
+theorem c08_data_trace_with_errors (gen : Nat → Nat → V) (cfg : TrialCfgE V D R) (n : Nat) (w : World)
+    (a : Nat) (ms : Option Nat) (hms : ms ≠ some a) :
+    (trialsSeqE gen cfg n w a ms).outs.map C08.dataOf =
+        (dataTrace gen cfg.dataGen n (w a)).take (trialsSeqE gen cfg n w a ms).outs.length ∧
+      (trialsSeqE gen cfg n w a ms).outs.length ≤ n ∧
+      ((trialsSeqE gen cfg n w a ms).err = none → (trialsSeqE gen cfg n w a ms).outs.length = n) ∧
+      (trialsSeqE gen cfg n w a ms).world a =
+        dataAdv gen cfg.dataGen ((trialsSeqE gen cfg n w a ms).outs.length +
+          (if (trialsSeqE gen cfg n w a ms).err.isSome then 1 else 0)) (w a) := by
+  induction n generalizing w with
+  | zero => simp [trialsSeqE, dataTrace, dataAdv]
+  | succ n ih =>
+    obtain ⟨hw, hd⟩ := C08.doTrialE_data gen cfg w a ms hms
+    unfold trialsSeqE
+    cases hr : doTrialE gen cfg w a ms with
+    | mk res w' =>
+      rw [hr] at hw hd
+      simp only at hw hd
+      cases res with
+      | error e =>
+        simp only [List.map_nil, List.length_nil, List.take_zero, Nat.zero_le, Option.isSome_some,
+          if_true, true_and, reduceCtorEq, false_implies, Nat.zero_add]
+        simp only [dataAdv]
+        exact hw
+      | ok o =>
+        obtain ⟨i1, i2, i3, i4⟩ := ih w'
+        simp only [List.map_cons, List.length_cons, dataTrace, List.take_succ_cons]
+        refine ⟨?_, by omega, fun h => by rw [i3 h], ?_⟩
+        · rw [hd o rfl, i1, hw]
+        · rw [i4, hw]
+          have : (trialsSeqE gen cfg n w' a ms).outs.length + 1 +
+              (if (trialsSeqE gen cfg n w' a ms).err.isSome = true then 1 else 0) =
+              ((trialsSeqE gen cfg n w' a ms).outs.length +
+                (if (trialsSeqE gen cfg n w' a ms).err.isSome = true then 1 else 0)) + 1 := by omega
+          rw [this]
+          simp only [dataAdv]
+
+/-- **non-interference with errors**: two analyses with the same data generation, whatever their
+minimisers do (restart, raise, at different trials) and whatever minimiser services they get
+(other than the data service): the data of their completed trials are initial segments of one and
+the same list. -/
+theorem c08_noninterference_with_errors (gen : Nat → Nat → V) (cfg₁ : TrialCfgE V D R) (cfg₂ : TrialCfgE V D R')
+    (h : cfg₁.dataGen = cfg₂.dataGen) (n : Nat) (w₁ w₂ : World) (a : Nat) (ms₁ ms₂ : Option Nat)
+    (h₁ : ms₁ ≠ some a) (h₂ : ms₂ ≠ some a) (hw : w₁ a = w₂ a) :
+    ∃ L, (trialsSeqE gen cfg₁ n w₁ a ms₁).outs.map C08.dataOf <+: L ∧
+      (trialsSeqE gen cfg₂ n w₂ a ms₂).outs.map C08.dataOf <+: L := by
+  refine ⟨dataTrace gen cfg₂.dataGen n (w₂ a), ?_, ?_⟩
+  · rw [(c08_data_trace_with_errors gen cfg₁ n w₁ a ms₁ h₁).1, h, hw]
+    exact List.take_prefix _ _
+  · rw [(c08_data_trace_with_errors gen cfg₂ n w₂ a ms₂ h₂).1]
+    exact List.take_prefix _ _
+
+/-- a raising trial leaves every service other than the two it was given untouched, and with the
+default (no minimiser service passed) it touches the data service only -/
+theorem c08_error_poststate_frame (gen : Nat → Nat → V) (cfg : TrialCfgE V D R) (w : World) (a : Nat)
+    (ms : Option Nat) (b : Nat) (hb : b ≠ a) (hm : ms ≠ some b) : (doTrialE gen cfg w a ms).2 b = w b := by
+  cases ms with
+  | none => simp only [doTrialE]; exact C08.set_other _ _ _ _ hb
+  | some m =>
+    have hbm : b ≠ m := fun e => hm (by rw [e])
+    simp only [doTrialE]
+    rw [C08.set_other _ _ _ _ hbm, C08.set_other _ _ _ _ hb]
+
+/-- the explicit minimiser service has advanced by exactly what the minimiser read, also when it
+raised (`m ≠ a`) -/
+theorem c08_error_poststate_minimizer (gen : Nat → Nat → V) (cfg : TrialCfgE V D R) (w : World) (a m : Nat)
+    (hne : a ≠ m) :
+    (doTrialE gen cfg w a (some m)).2 m =
+      (w m).adv (cfg.minim (cfg.dataGen ((w a).view gen)).1 ((w m).view gen)).2 := by
+  simp only [doTrialE]
+  rw [C08.set_same, C08.set_other _ _ _ _ (Ne.symm hne)]
+
+/-- **refinement**: when the minimiser never raises, the error-aware layer is the total layer all
+other theorems are about (rows, no error, same final store) -/
+theorem c08_trialsE_refines_total (gen : Nat → Nat → V) (cfg : TrialCfg V D R) (n : Nat) (w : World)
+    (a : Nat) (ms : Option Nat) :
+    trialsSeqE gen ⟨cfg.dataGen, fun d v => (.ok (cfg.minim d v).1, (cfg.minim d v).2)⟩ n w a ms =
+      ⟨(trialsSeq gen cfg n w a ms).1, none, (trialsSeq gen cfg n w a ms).2⟩ := by
+  induction n generalizing w with
+  | zero => rfl
+  | succ n ih =>
+    have hd : doTrialE gen ⟨cfg.dataGen, fun d v => (.ok (cfg.minim d v).1, (cfg.minim d v).2)⟩ w a ms =
+        (.ok (doTrial gen cfg w a ms).1, (doTrial gen cfg w a ms).2) := by
+      cases ms <;> simp [doTrialE, doTrial, Except.map]
+    unfold trialsSeqE
+    rw [hd]
+    simp only [ih, trialsSeq]
+
+end trialsE
+
+/-! ## get_ncpu -/
+
+/-- `get_ncpu`: a returned value is at least 1; the local setting wins over the configuration, the
+configuration over the default 1; it raises exactly when the effective setting is below 1 -/
+theorem c08_get_ncpu_spec (cfgNcpu loc : Option Int) :
+    (∀ r, getNcpu cfgNcpu loc = .ok r → 1 ≤ r ∧ (∀ k, loc = some k → (r : Int) = k) ∧
+      (loc = none → ∀ k, cfgNcpu = some k → (r : Int) = k) ∧ (loc = none → cfgNcpu = none → r = 1)) ∧
+    (getNcpu cfgNcpu loc = .error .valueError ↔
+      (∃ k, loc = some k ∧ k < 1) ∨ (loc = none ∧ ∃ k, cfgNcpu = some k ∧ k < 1)) := by
+  unfold getNcpu
+  cases loc with
+  | some k =>
+    by_cases hk : k < 1
+    · simp [hk]
+    · simp only [hk, if_false, Except.ok.injEq, reduceCtorEq, false_iff]
+      refine ⟨?_, by simp; omega⟩
+      intro r hr
+      subst hr
+      refine ⟨by omega, ?_, by simp, by simp⟩
+      intro k' hk'
+      simp only [Option.some.injEq] at hk'
+      subst hk'
+      omega
+  | none =>
+    cases cfgNcpu with
+    | some k =>
+      by_cases hk : k < 1
+      · simp [hk]
+      · simp only [hk, if_false, Except.ok.injEq, reduceCtorEq, false_iff]
+        refine ⟨?_, by simp; omega⟩
+        intro r hr
+        subst hr
+        refine ⟨by omega, by simp, ?_, by simp⟩
+        intro _ k' hk'
+        simp only [Option.some.injEq] at hk'
+        subst hk'
+        omega
+    | none => simp
+
+/-! ## labels of the rows appended with several processes -/
+
+/-- the full statement one would like: every seed label of the appended rows is new -/
+def c08_extend_all_labels_fresh_statement : Prop :=
+  ∀ (gen : Nat → Nat → Nat) (start : Nat) (file : List Nat) (cur pos ncpu : Nat),
+    ∀ l ∈ extendLabels gen id start file cur pos ncpu, l ∉ file
+
+/-- it is false: the worker seeds are words of the new seed's stream and nothing compares them with
+the file (file seeds `{1, 7}`, service seed 1, a generator whose first word is 7, two processes) -/
+theorem c08_extend_all_labels_fresh_counterexample : ¬ c08_extend_all_labels_fresh_statement := by
+  intro h
+  exact absurd (h (fun _ _ => 7) 1 [1, 7] 1 0 2 7 (by decide)) (by decide)
+
+/-- what does hold: the label of the master rows (the seed left in the caller's service) is new,
+and with one process it is the only label -/
+theorem c08_extend_all_labels_fresh_partial {V : Type} (gen : Nat → Nat → V) (toSeed : V → Nat)
+    (start : Nat) (file : List Nat) (cur pos ncpu : Nat) :
+    (extendLabels gen toSeed start file cur pos ncpu).head? = some (extendSeed start file cur) ∧
+      extendSeed start file cur ∉ file ∧
+      (ncpu ≤ 1 → ∀ l ∈ extendLabels gen toSeed start file cur pos ncpu, l ∉ file) := by
+  refine ⟨rfl, c08_next_seed_fresh start file cur, ?_⟩
+  intro hn l hl
+  have h0 : ncpu - 1 = 0 := by omega
+  simp only [extendLabels, workerSeeds, h0, List.range_zero, List.map_nil, List.mem_singleton] at hl
+  rw [hl]
+  exact c08_next_seed_fresh start file cur
+
+-- non-vacuity
+example : getNcpu (some 4) none = .ok 4 ∧ getNcpu (some 4) (some 2) = .ok 2 ∧ getNcpu none none = .ok 1 ∧
+    getNcpu (some 0) none = .error .valueError := by decide
+example : (minimizeM (⟨fun k x => (x + k, k), fun s => decide (2 ≤ s), fun _ => true⟩ : MinImpl Nat Nat)
+    (fun v => v 0) 2 5 id 0 (fun i => 100 + i)).2 = 4 := by decide
+example : (minimizeM (⟨fun k x => (x + k, k), fun s => decide (9 ≤ s), fun _ => true⟩ : MinImpl Nat Nat)
+    (fun v => v 0) 2 3 id 0 (fun i => 100 + i)).2 = 6 := by decide
